@@ -3,16 +3,24 @@
     python -m harness.mutate <file under /repo/src> <check ids, comma separated> [--max N] [--funcs a,b]
 
 For every mutant of the file (comparison swaps, negated conditions, and/or swaps, constant tweaks,
-dropped statements, `return x` -> `return None`) the file in /repo is overwritten, the listed quick
-checks are run until one reports a violation, and the file is restored (`git checkout`).  Mutants no
+dropped statements, `return x` -> `return None`) the mutated file is written into a SCRATCH worktree
+of /repo's HEAD (outside /repo and /verif, removed on exit), the listed quick checks are run against
+that worktree (VERIF_REPO) until one reports a violation or exceeds --timeout seconds.  Mutants no
 check notices are written to /tmp/mutsurv/ as diffs for triage: each is either equivalent / outside
-the statements, or a blind spot.  Needs a clean /repo; never commits anything there."""
+the statements, or a blind spot.
+
+/repo itself is never written.  (An earlier version overwrote the file in /repo and restored it in a
+`finally`; when the run was killed the mutant stayed in /repo's working tree and was committed by a
+snapshot - see DESIGN.md 9.8.)"""
 import ast
 import copy
 import difflib
 import os
+import shutil
+import signal  # noqa: F401
 import subprocess
 import sys
+import tempfile
 
 REPO = "/repo"
 OUT = "/tmp/mutsurv"
@@ -107,31 +115,51 @@ def mutate(tree, kind, path):
     return t
 
 
+def scratch_worktree():
+    d = tempfile.mkdtemp(prefix="verif_mut_repo.", dir="/tmp")
+    os.rmdir(d)
+    subprocess.run(["git", "-C", REPO, "worktree", "add", "--detach", d, "HEAD"], check=True, capture_output=True)
+    return d
+
+
+def remove_worktree(d):
+    subprocess.run(["git", "-C", REPO, "worktree", "remove", "--force", d], capture_output=True)
+    shutil.rmtree(d, ignore_errors=True)
+    subprocess.run(["git", "-C", REPO, "worktree", "prune"], capture_output=True)
+
+
 def main():
     rel = sys.argv[1]
     checks = sys.argv[2].split(",")
     maxn = int(sys.argv[sys.argv.index("--max") + 1]) if "--max" in sys.argv else 10 ** 9
+    first = int(sys.argv[sys.argv.index("--from") + 1]) if "--from" in sys.argv else 0
+    limit = int(sys.argv[sys.argv.index("--timeout") + 1]) if "--timeout" in sys.argv else 600
     funcs = set(sys.argv[sys.argv.index("--funcs") + 1].split(",")) if "--funcs" in sys.argv else set()
-    path = os.path.join(REPO, rel)
     if subprocess.run(["git", "-C", REPO, "status", "--short"], capture_output=True, text=True).stdout.strip():
         raise SystemExit("/repo is not clean")
     os.makedirs(OUT, exist_ok=True)
-    src = open(path).read()
+    src = open(os.path.join(REPO, rel)).read()
     tree = ast.parse(src)
     base = ast.unparse(tree)
     ss = sites(tree, funcs)
     print("%d mutation sites in %s" % (len(ss), rel))
-    killed = survived = crashed = same = 0
+    killed = survived = crashed = same = hung = 0
     tag = rel.replace("/", "_").replace(".py", "")
+    scratch = scratch_worktree()
+    path = os.path.join(scratch, rel)
+    env = dict(os.environ, VERIF_REPO=scratch)
     if "--apply" in sys.argv:
-        # leave mutant K in /repo for a closer look (restore with `git -C /repo checkout -- .`)
+        # leave mutant K in a scratch worktree for a closer look; the caller removes it with
+        # `git -C /repo worktree remove --force <dir>`
         k = int(sys.argv[sys.argv.index("--apply") + 1])
         kind, p = ss[k]
         open(path, "w").write(ast.unparse(mutate(tree, kind, p)))
-        print("applied mutant %d (%s)" % (k, kind))
+        print("applied mutant %d (%s) in %s  (run checks with VERIF_REPO=%s)" % (k, kind, scratch, scratch))
         return
     try:
         for k, (kind, p) in enumerate(ss[:maxn]):
+            if k < first:
+                continue
             try:
                 new = ast.unparse(mutate(tree, kind, p))
             except Exception:
@@ -146,7 +174,18 @@ def main():
             open(path, "w").write(new)
             verdict = "survived"
             for c in checks:
-                r = subprocess.run(["./check", c], cwd="/verif", capture_output=True, text=True)
+                pr = subprocess.Popen(["./check", c], cwd="/verif", stdout=subprocess.DEVNULL, stderr=subprocess.DEVNULL, env=env, start_new_session=True)
+                try:
+                    pr.wait(timeout=limit)
+                except subprocess.TimeoutExpired:
+                    verdict = "hung " + c
+                    try:
+                        os.killpg(pr.pid, 9)      # the check, its worker pool and its TLC
+                    except ProcessLookupError:
+                        pass
+                    pr.wait()
+                    break
+                r = pr
                 if r.returncode == 1:
                     verdict = "killed by " + c
                     break
@@ -161,13 +200,15 @@ def main():
             else:
                 if verdict.startswith("crashed"):
                     crashed += 1
+                elif verdict.startswith("hung"):
+                    hung += 1
                 else:
                     survived += 1
                 with open(os.path.join(OUT, "%s_%04d_%s.diff" % (tag, k, verdict.split()[0])), "w") as f:
                     f.write(diff)
     finally:
-        subprocess.run(["git", "-C", REPO, "checkout", "--", rel])
-    print("killed %d  survived %d  crashed %d  (unchanged text %d)" % (killed, survived, crashed, same))
+        remove_worktree(scratch)
+    print("killed %d  survived %d  crashed %d  hung %d  (unchanged text %d)" % (killed, survived, crashed, hung, same))
 
 
 if __name__ == "__main__":
